@@ -230,8 +230,7 @@ def gen_presentation(rng, case, cfg):
         pres['S0'] = sorted(rng.sample(range(tot), rng.randint(0, tot)))
     if 'atoms' in kinds and rng.random() < 0.6:
         atoms = gen.ATOM_POOL[:cfg['natoms']]
-        names = rng.sample(gen.RENAME_POOL, len(atoms))
-        pres['amap'] = dict(zip(atoms, names))
+        pres['amap'] = gen.rename_map(rng, atoms)
     if 'schedule' in kinds and rng.random() < 0.75:
         pres['seam'] = True
         pres['sched'] = 'random'
